@@ -40,6 +40,10 @@ def cases(tier, rng):
             continue
         line = "c15 %s %s %d 0 20" % (c, st, n)
         cs.append({"line": line, "key": line, "model": False, "tags": {"carrier": c, "stall": st + "x20"}})
+    # ... and three hundred (any fixed number of handshakes in progress would be used up)
+    for c, st in ((("tcp", "connect"), ("tcp", "between"), ("ws", "upgraded")) if tier == "thorough" else (("tcp", "between"),)):
+        line = "c15 %s %s %d 0 300" % (c, st, n)
+        cs.append({"line": line, "key": line, "model": False, "tags": {"carrier": c, "stall": st + "x300"}})
     # what a port scanner sends (a complete request whose first line has one blank) to every kind of endpoint that reads the handshake
     # itself; twenty websocket peers stalled AFTER the websocket upgrade, inside the session handshake
     for c in ("tcp", "kcp", "dns", "tcp-starttls", "kcp-starttls") if tier == "thorough" else ("tcp", "kcp", "dns"):
